@@ -54,11 +54,20 @@ impl TransportSenderT for LoopTx {
 	fn send(&mut self, msg: String) -> impl Future<Output = Result<(), TErr>> + Send {
 		self.sent.lock().unwrap().push(msg.clone());
 		let (methods, back) = (self.methods.clone(), self.back.clone());
+		// one send in four behaves like a transport with write acknowledgement: it completes only after the peer's answer is
+		// already on its way back (and a few scheduler turns later) - the client must have the call on its books before it writes
+		let late = {
+			let mut n = self.sent.lock().unwrap().len();
+			n = n.wrapping_mul(2654435761) >> 5;
+			n % 4 == 1
+		};
+		let (ack_tx, ack_rx) = tokio::sync::oneshot::channel::<()>();
 		tokio::spawn(async move {
 			match methods.raw_json_request(&msg, 16).await {
 				Ok((resp, mut notifs)) => {
 					// the answer first, then whatever the subscription sink produces until the handler drops it
 					let _ = back.send(resp.get().to_string());
+					let _ = ack_tx.send(());
 					while let Some(n) = notifs.recv().await {
 						let _ = back.send(n.get().to_string());
 					}
@@ -70,7 +79,15 @@ impl TransportSenderT for LoopTx {
 				}
 			}
 		});
-		async { Ok(()) }
+		async move {
+			if late {
+				let _ = tokio::time::timeout(Duration::from_secs(2), ack_rx).await;
+				for _ in 0..3 {
+					tokio::task::yield_now().await;
+				}
+			}
+			Ok(())
+		}
 	}
 }
 impl TransportReceiverT for LoopRx {
